@@ -280,6 +280,13 @@ func computeLocksets(c *Ctx, scope map[*ssa.Function]bool, perInstance map[strin
 							continue
 						}
 						ls = li.translate(at, e.Site, e.Callee, e.Kind)
+						// a closure handed to a repository function that invokes its function parameter: the closure
+						// runs with what that function holds at the invocation (a lock it takes itself included)
+						if e.Kind == "closure-arg" {
+							if inner, ok := li.paramInvocationLockset(e.Site, e.Callee); ok {
+								ls = inner
+							}
+						}
 					}
 				default: // closure-made (stored, go, defer), dynamic
 					ls = lockset{}
@@ -454,4 +461,62 @@ func (li *lockInfo) deferredClosureEntry(parent, cl *ssa.Function) (lockset, boo
 		}
 	}
 	return out, true
+}
+
+
+// paramInvocationLockset: site is a call of a scope function G that receives closure cl as an argument;
+// returns the intersection of the locksets at G's dynamic calls of the corresponding parameter.
+func (li *lockInfo) paramInvocationLockset(site ssa.Instruction, cl *ssa.Function) (lockset, bool) {
+	ci, ok := site.(ssa.CallInstruction)
+	if !ok {
+		return nil, false
+	}
+	g := ci.Common().StaticCallee()
+	if g == nil || !li.scope[g] || len(g.Blocks) == 0 {
+		return nil, false
+	}
+	idx := -1
+	for i, a := range ci.Common().Args {
+		if mc, isMC := a.(*ssa.MakeClosure); isMC {
+			if f, _ := mc.Fn.(*ssa.Function); f == cl || boundMethodTarget(mc) == cl {
+				idx = i
+			}
+		}
+		if f, isF := a.(*ssa.Function); isF && f == cl {
+			idx = i
+		}
+	}
+	if idx < 0 || idx >= len(g.Params) {
+		return nil, false
+	}
+	var out lockset
+	found := false
+	for _, h := range withClosures(g) {
+		allInstrs(h, func(in ssa.Instruction) {
+			c2, isC := in.(*ssa.Call)
+			if !isC || c2.Call.IsInvoke() || c2.Call.StaticCallee() != nil {
+				return
+			}
+			// the value called is the parameter (directly, or the captured cell holding it)
+			isParam := false
+			for v := range backSlice(c2.Call.Value).vals {
+				if v == ssa.Value(g.Params[idx]) {
+					isParam = true
+				}
+			}
+			if !isParam {
+				return
+			}
+			at, ok := li.at[in]
+			if !ok {
+				return
+			}
+			if !found {
+				out, found = at.copy(), true
+			} else {
+				out = intersect(out, at)
+			}
+		})
+	}
+	return out, found
 }
